@@ -290,6 +290,32 @@ def _uni_reject(res, case, w, seam):
     return res
 
 
+def _cleanup_ref_act_mode(res, case, w, seam):
+    """--act runs [setup], the action and [cleanup] only: a symbol defined in a skipped phase ([before-assert], [assert]) and used in [cleanup]."""
+    _, dphase = case
+    blocks = {p: [] for p in PHASES}
+    blocks['act'] = ['% atc']
+    blocks[dphase].append("def string X = 'the value'")
+    blocks['cleanup'] = ['run % probe "@[X]@"']
+    text = '\n'.join(sum([['[%s]' % p] + blocks[p] for p in PHASES], [])) + '\n'
+    o = cli.run_case(text, args=['--act'], real_files=True)
+    pc = [c['args'][1:] for c in seam.calls if c['name'] == 'probe']
+    errs = []
+    if o.rc != 0:
+        errs.append('--act: exit code %s, expected the action\'s (0) / %s' % (o.rc, ' / '.join(cli.stderr_lines(o.err)[-3:])[:260]))
+    if pc != [['the value']]:
+        errs.append("--act: [cleanup] refers to X defined in [%s]: the probe must get ['the value'], got %s" % (dphase, pc))
+    res.outcomes[('cleanup-ref-act-mode', dphase, o.rc)] += 1
+    res.nontrivial += 1
+    if errs:
+        hit = kf.classify_c08(text, 'act-mode', dphase, 'after' if dphase != 'setup' else 'before', o.rc, 'INTERNAL_ERROR\n' if 'INTERNAL_ERROR' in o.err.split('\n') else o.out, o.err, pc)
+        if hit:
+            res.kf[hit] += 1
+        else:
+            res.violation(case, errs, {'file': text})
+    return res
+
+
 def _cleanup_ref(res, case, w, seam):
     """An instruction of phase F fails; X is defined before / after it (same phase) or in a later phase; [cleanup] refers to X."""
     _, fphase, dphase, where = case
@@ -365,6 +391,8 @@ def cases(tier):
                 if where == 'before' and dphase != fphase:
                     continue
                 yield ('cleanup-ref', fphase, dphase, where)
+    for dphase in ('setup', 'before-assert', 'assert'):
+        yield ('cleanup-ref-act-mode', dphase)
 
 
 def run(case) -> Result:
@@ -387,6 +415,8 @@ def run(case) -> Result:
         return _uni_reject(res, case, w, seam)
     if k == 'cleanup-ref':
         return _cleanup_ref(res, case, w, seam)
+    if k == 'cleanup-ref-act-mode':
+        return _cleanup_ref_act_mode(res, case, w, seam)
     return _value(res, case, w, seam)
 
 
